@@ -11,6 +11,11 @@ inductive PyErr where
   | index          -- IndexError
   deriving DecidableEq, Repr
 
+/-- The numeral functions `_format_page_label` chooses between: `str`, `format_int_roman`, `format_int_alpha`. -/
+inductive PyNumeral where
+  | str | roman | alpha
+  deriving DecidableEq, Repr
+
 /-- `l[i]` (negative indices count from the end; out of range raises IndexError). -/
 def pyIndex {α : Type} (l : List α) (i : Int) : Except PyErr α :=
   if i < 0 then
